@@ -35,7 +35,7 @@ PROPS = {
     },
     'C13': {
         'title': 'Ill-formed definitions are rejected at compile time, never reinterpreted',
-        'level_text': "Proof in the contrapositive, rule by rule (C13.r1_required_sections, r2_no_unknown_key, transition_block_shape, r3_names_distinct, r4_initial_is_leaf, r56_superstates_ok, r7_to_r10_events, r11_unambiguous): if the macro accepts a definition (parse and validate succeed; otherwise the expansion is compile_error!) and rustc's duplicate-method rule does not fire, the definition has every required section, no unknown key at any level, pairwise distinct state names (leaf and superstate), a declared leaf as initial state, superstates with children and with initial children among their descendants, snake_case events with at least one transition, transitions with from and to and non-empty declared sources and declared targets, and at most one applicable transition per (leaf, event). R1-R10 are refused by the macro, R11 by rustc (E0592; Static rule, trusted, validated by T4 illformed).",
+        'level_text': "Proof in the contrapositive, rule by rule (C13.r1_required_sections, r2_no_unknown_key, transition_block_shape, r3_names_distinct, r4_initial_is_leaf, r56_superstates_ok, r7_to_r10_events, r11_unambiguous): if the macro accepts a definition (parse and validate succeed; otherwise the expansion is compile_error!) and rustc's duplicate-method rule does not fire, the definition has every required section, no unknown key at any level, pairwise distinct state names (leaf and superstate), a declared leaf as initial state, superstates with children and with initial children among their descendants, snake_case events with at least one transition, transitions with from and to and non-empty declared sources and declared targets, and at most one applicable transition per (leaf, event). R1-R10 are refused by the macro, R11 by rustc (E0592; Static rule, trusted, validated by T4 illformed). Converse (C13Iff.validate_iff, C13Complete.parser_accepts, macro_accepts): the validator succeeds exactly when its rules hold of the parsed machine, and a definition satisfying the parser's rules parses, so the macro refuses only for R1-R10.",
         'level_note': 'Ties: T1 verdict and message on the mut stream (every rule x every position), T2 FE MK SUB IH, T4 illformed (every mutated definition must fail to compile, macro-phase and rustc-phase crates separately). History: duplicate superstate names were accepted by the unchanged snapshot (F3), fixed by /repo commit 1395bb8.',
         'modules': ['SMV.Props.C13', 'SMV.Props.C13Iff', 'SMV.Props.C13Complete'],
         'regions': ['FE', 'MK', 'SUB', 'IH'],
@@ -44,7 +44,7 @@ PROPS = {
     },
     'C14': {
         'title': 'Every well-formed definition compiles in every supported configuration',
-        'level_text': "PARTIAL. Proof (C14.dynamic_iff, item_names, toSnake_noUpper, pascalGo_noUnderscore, toPascal_head, accessor_names; C12.method_name_declared): the dynamic API is emitted iff dynamic: true or the feature is set; generated names follow the convention (snake_case methods/accessors/extractors for any state name, PascalCase variants, Dynamic<Name>, <Name>Event). That rustc accepts the expansion of every well-formed definition is not a Lean statement: it is established by rustc on the T4 pos corpus (option product, four build configurations) and on every machine T3 compiles, rebuilt from the current tree on every run.",
+        'level_text': "PARTIAL. Proof (C14.dynamic_iff, item_names, toSnake_noUpper, pascalGo_noUnderscore, toPascal_head, accessor_names; C12.method_name_declared): the dynamic API is emitted iff dynamic: true or the feature is set; generated names follow the convention (snake_case methods/accessors/extractors for any state name, PascalCase variants, Dynamic<Name>, <Name>Event). That rustc accepts the expansion of every well-formed definition is not a Lean statement: it is established by rustc on the T4 pos corpus (option product, four build configurations) and on every machine T3 compiles, rebuilt from the current tree on every run. The macro-level half is a theorem (C13Complete.macro_accepts: every definition satisfying R1-R10 is expanded, never refused), and where the naming side conditions fail the modelled rustc rules reject the expansion (SideConditions).",
         'level_note': 'Known limits of the real code at the edges of well-formedness are recorded in known_findings.json (derived-name collisions, dynamic with zero events, concrete context without Default under dynamic). Ties: T2 all regions decl/sig, T4 pos, T3 builds.',
         'modules': ['SMV.Props.C14', 'SMV.Props.SideConditions', 'SMV.Props.C13Complete'],
         'regions': ['FE', 'MK', 'ST', 'IH', 'CT', 'SIG', 'SA', 'XA', 'SUB', 'EV', 'AS', 'DN', 'DF', 'ID', 'EX', 'DA', 'HD', 'CS'],
